@@ -160,7 +160,8 @@ func c14Doc() xgen.DocOpts {
 func TestC14Rapid(t *testing.T) {
 	uris := []string{"u1", "u2", "u3"}
 	runRapid(t, uC14, func(rt *rapid.T) {
-		doc := xgen.Doc(rt, c14Doc())
+		shapedOpts, _ := xgen.Shaped(rt, c14Doc())
+		doc := xgen.Doc(rt, shapedOpts)
 		ctx := xgen.Context(rt, doc, 4)
 		g := xgen.NewG(rt, doc)
 		g.ElNames = []string{"a", "b"}
